@@ -121,3 +121,23 @@ Definition outc_eqb (a b : outc) : bool :=
   end.
 
 Definition bsum (bs : bytes) : Z := fold_right (fun b a => Z.of_N b + a) 0 bs.
+
+(* ---- feeding a receiver a list of reads -------------------------------------------------
+   [feed recv s chunks] = (final state, all deliveries in order, true iff every call returned
+   normally (no exception escaped, fuel not exhausted)) *)
+Section Feed.
+Context {S : Type}.
+Variable recv : S -> bytes -> S * list delivery * outc.
+Fixpoint feed (s : S) (chunks : list bytes) : S * list delivery * bool :=
+  match chunks with
+  | [] => (s, [], true)
+  | c :: cs =>
+      let '(s1, ds, o) := recv s c in
+      let '(s2, ds2, ok) := feed s1 cs in
+      (s2, ds ++ ds2, match o with Done => ok | _ => false end)
+  end.
+End Feed.
+
+(* position n of the concatenation of [adus] lies k bytes inside one of them (0 < k < its length) *)
+Definition cut_inside (adus : list bytes) (n k : nat) : Prop :=
+  exists a f b, adus = a ++ f :: b /\ n = (length (concat a) + k)%nat /\ (0 < k < length f)%nat.
